@@ -342,8 +342,8 @@ fn kind(out: &mut Vec<GSpec>) {
                     quick,
                     rules,
                     alphabet: "ab #".into(),
-                    max_len: 5,
-                    max_len_thorough: 6,
+                    max_len: 6,
+                    max_len_thorough: 7,
                     atom0: true,
                     ..Default::default()
                 });
